@@ -245,3 +245,10 @@ package num
 //@   bound len(val) in 0..5 for sound.int, sound.dec
 //@   ensures [sound.int] err == nil && !s_contains(val, ".") ==> amountPattern(val)
 //@   ensures [sound.dec] err == nil && s_contains(val, ".") ==> amountPattern(val)
+//
+// ---- C06: JSON forms. A value is unquoted exactly when it is longer than two bytes and starts
+// and ends with a double quote (so the two-byte text `""` stays as it is and is then refused
+// by the parser); anything else is passed on unchanged.
+//@ func unquote(value) (r)
+//@   ensures [quoted] len(value) > 2 && value[0] == 34 && value[len(value) - 1] == 34 ==> arr(r) == arr(value) && len(r) == len(value) - 2 && (forall i int :: 0 <= i && i < len(r) ==> r[i] == value[i + 1])
+//@   ensures [bare] !(len(value) > 2 && value[0] == 34 && value[len(value) - 1] == 34) ==> r == value
